@@ -89,6 +89,10 @@ def snap_hrg(h):
     import fggs
     s = [h.start.name, tuple(n.name for n in h.node_labels()), tuple((l.name, l.is_terminal, tuple(x.name for x in l.type)) for l in h.edge_labels()),
          tuple((id(r), r.lhs.name, id(r.rhs), snap_graph(r.rhs)) for r in h.all_rules())]
+    # the attribute names of the grammar object and of its rule graphs (a query that attaches a cache to its argument changes it;
+    # a stale cache then makes later answers depend on which queries ran before) and the process-wide torch state
+    import torch
+    s.append((tuple(sorted(vars(h))), tuple(tuple(sorted(vars(r.rhs))) for r in h.all_rules()), torch.is_grad_enabled(), str(torch.get_default_dtype())))
     if isinstance(h, fggs.FGG):
         s.append(tuple((n, repr(d.to_json()), id(d)) for n, d in h.domains.items()))
         s.append(tuple((n, id(f), id(f.weights), snap_pt(f.weights), tuple(id(d) for d in f.domains)) for n, f in h.factors.items()))
@@ -137,7 +141,9 @@ def run_query(q, fgg, info, other, spec, ctx):
         warnings.simplefilter('ignore')
         if q['q'] in ('sum_product', 'sum_products'):
             method = q['method']
-            if method == 'linear' and not gen_fgg.is_linear(spec): method = 'newton'
+            # method='linear' on a grammar that is not linearly recursive raises the documented ValueError: kept for odd n (an
+            # exception path must leave the arguments and the process state alone as well), replaced by newton otherwise
+            if method == 'linear' and not gen_fgg.is_linear(spec) and q['n'] % 2 == 0: method = 'newton'
             g = fgg[kind]
             opts = dict(method=method, semiring=gen_fgg.make_semiring(kind, dtype), tol=1e-8, kmax=500)
             if q['q'] == 'sum_product':
